@@ -215,17 +215,18 @@ pub enum Unsupported {
 fn foreign_subject() -> BoxedStrategy<FName> {
 	(gen::dn(4, true, false), 0u8..10, gen::dn_value())
 		.prop_map(|(dn, mode, v)| {
+			let v = if v.admitted() { v } else { DnValueSpec::new(v.kind, "x") };
 			let mut n = FName::from_dn(&dn);
 			match mode {
 				0 => {
 					// CN=a, CN=b
-					n.0.push(vec![FAttr { oid: vec![2, 5, 4, 3], kind: StrKind::Utf8, text: "a".into() }]);
-					n.0.push(vec![FAttr { oid: vec![2, 5, 4, 3], kind: v.kind, text: v.text }]);
+					n.0.push(vec![FAttr { oid: vec![2, 5, 4, 3], kind: StrKind::Utf8, text: "a".into(), raw: None }]);
+					n.0.push(vec![FAttr { oid: vec![2, 5, 4, 3], kind: v.kind, text: v.text, raw: None }]);
 				},
 				1 => {
 					n.0.push(vec![
-						FAttr { oid: vec![2, 5, 4, 3], kind: v.kind, text: v.text },
-						FAttr { oid: vec![2, 5, 4, 5], kind: StrKind::Printable, text: "7".into() },
+						FAttr { oid: vec![2, 5, 4, 3], kind: v.kind, text: v.text, raw: None },
+						FAttr { oid: vec![2, 5, 4, 5], kind: StrKind::Printable, text: "7".into(), raw: None },
 					]);
 				},
 				_ => {},
